@@ -78,6 +78,9 @@ ID_NF, ID_MM, ID_FB, ID_XNF, ID_XMM, ID_XFB = 1000, 1001, 1002, 1003, 1004, 1005
 ID_VIEWEXC = 2000            # + tag: raised by that statement's body on the normal path; + 1000 more on the exception path
 ID_AGAIN = 1000
 TAG_DEFAULT, TAG_DEFAULT_WEBOB = 9000, 9001
+VIEW_KINDS = ['fn2', 'fn1', 'cls2', 'cls2c', 'cls1', 'inst2', 'inst1']
+CTX_KINDS = ('fn2', 'cls2', 'cls2c', 'inst2')          # kinds whose callable is handed a context by the view mapper
+NOCTX = object()                                      # what a request-only callable reports as its context argument
 EARLY_SITES = ['tween', 'newrequest', 'beforetraversal', 'rootfactory', 'traverser', 'contextfound']
 
 
@@ -354,6 +357,16 @@ def build_app(case):
         config.add_route(r['name'], r['pattern'], use_global_views=r.get('ugv', False))
     if not auto:
         config.commit()
+    class Pages2:
+        """ONE class behind every `cls2` statement of the application (ordinary and exception views alike), each through its own attr"""
+        def __init__(self, context, request):
+            self.context = context
+            self.request = request
+
+    class Pages1:
+        def __init__(self, request):
+            self.request = request
+    w.shared = {'cls2': Pages2, 'cls1': Pages1}
     for st in case['stmts']:
         tag = st['tag']
         body = st['body']
@@ -385,9 +398,12 @@ def build_app(case):
                 raise e
         else:                                               # 'default': the real default_exceptionresponse_view
             view = None if st['kind'] in ('notfound', 'forbidden') else hx.default_exceptionresponse_view
+        pk = my_pred_kwargs(w, st)
         if view is not None and body[0] != 'default':
             view.__name__ = 'v%d' % tag
-        pk = my_pred_kwargs(w, st)
+            view, attr = wrap_kind(w, st.get('vk', 'fn2'), tag, view)
+            if attr:
+                pk['attr'] = attr
         if st.get('route'):
             pk['route_name'] = st['route']
         if renderer:
@@ -415,11 +431,49 @@ def build_app(case):
     return w
 
 
+def wrap_kind(w, vk, tag, bodyfn):
+    """the statement's callable in the form `vk` asks for; -> (view argument, attr argument)"""
+    if vk == 'fn2':
+        return bodyfn, None
+    if vk == 'fn1':
+        def v1(request):
+            return bodyfn(NOCTX, request)
+        v1.__name__ = 'v%d' % tag
+        return v1, None
+    if vk == 'cls2':
+        setattr(w.shared['cls2'], 'm%d' % tag, lambda self: bodyfn(self.context, self.request))
+        return w.shared['cls2'], 'm%d' % tag
+    if vk == 'cls1':
+        setattr(w.shared['cls1'], 'm%d' % tag, lambda self: bodyfn(NOCTX, self.request))
+        return w.shared['cls1'], 'm%d' % tag
+    if vk == 'cls2c':
+        class Own:
+            def __init__(self, context, request):
+                self.context = context
+                self.request = request
+
+            def __call__(self):
+                return bodyfn(self.context, self.request)
+        Own.__name__ = 'Own%d' % tag
+        return Own, None
+    if vk == 'inst2':
+        class Obj2:
+            def __call__(self, context, request):
+                return bodyfn(context, request)
+        return Obj2(), None
+    if vk == 'inst1':
+        class Obj1:
+            def __call__(self, request):
+                return bodyfn(NOCTX, request)
+        return Obj1(), None
+    raise ValueError(vk)
+
+
 def record_seen(w, tag, context, request):
     d = request.__dict__
     ei = d.get('exc_info')
     w.log['seen'].append({'tag': tag, 'excpath': on_exc_path(w), 'level': 'policy' if w.log.get('policy_caught') is not None else 'tween',
-                          'context': context,
+                          'context': context, 'req_context': d.get('context'),
                           'exception': d.get('exception'), 'exc_info': ei[1] if ei else None,
                           'exc_info_ok': (ei is None) or (len(ei) == 3 and ei[0] is type(ei[1])),
                           'response': d.get('response'), 'prop_exception': request.exception})
@@ -533,7 +587,7 @@ def observe(w, case):
     lvl_seen = [s for s in exc_seen if s['level'] == level]
     if lvl_seen:
         s = lvl_seen[-1]
-        seen = [oid(w, s['context']), oid(w, s['exception']), oid(w, s['exc_info']), oid(w, s['response'])]
+        seen = [None if s['context'] is NOCTX else oid(w, s['context']), oid(w, s['exception']), oid(w, s['exc_info']), oid(w, s['response'])]
     after = lg.get('after_policy') if level == 'policy' else lg.get('after')
     attrs = None if after is None else [oid(w, after[0]), oid(w, after[1]), oid(w, after[2])]
     return {'out': out, 'tout': tout, 'seen': seen, 'attrs': attrs, 'caught': oid(w, lg.get('passing')),
@@ -620,7 +674,7 @@ def model_input(w, case, obs):
     if case.get('default_excview', True):
         for ctx, tag in ((IFACE_IDS['IExceptionResponse'], TAG_DEFAULT), (BUILTIN_IDS['WebobHTTPException'], TAG_DEFAULT_WEBOB)):
             stmts.append({'req': 0, 'ctx': ctx, 'name': '', 'preds': [], 'accept': None, 'perm': 'unset', 'isexc': True,
-                          'xonly': False, 'tag': tag, 'body': ['ctx'], 'touch': False})
+                          'xonly': False, 'tag': tag, 'body': ['ctx'], 'touch': False, 'vk': 'fn2'})
     for st in case['stmts']:
         perm = stmt_perm(st)
         stmts.append({'req': 0 if not st.get('route') else 1 + routes.index(st['route']), 'ctx': stmt_ctx_id(st),
@@ -628,7 +682,8 @@ def model_input(w, case, obs):
                       'accept': c03.offer_data(w, st['accept'], ids) if st.get('accept') is not None else None,
                       'perm': 'unset' if perm is None else ('npr' if perm == 'npr' else 'named'),
                       'isexc': stmt_isexc(st), 'xonly': stmt_xonly(st), 'tag': st['tag'], 'body': body_json(w, st),
-                      'touch': bool(st.get('touch')) and st['body'][0] != 'default'})
+                      'touch': bool(st.get('touch')) and st['body'][0] != 'default',
+                      'vk': st.get('vk', 'fn2') if st['body'][0] != 'default' else 'fn2'})
     world = {'policy': bool(case.get('policy', True)), 'defperm': bool(case.get('defperm')),
              'nf': exc_record(w, hx.HTTPNotFound(), ID_NF), 'mm': exc_record(w, PredicateMismatch(), ID_MM),
              'fb': exc_record(w, hx.HTTPForbidden(), ID_FB), 'xnf': exc_record(w, hx.HTTPNotFound(), ID_XNF),
@@ -864,9 +919,12 @@ def judge(w, case, obs, stats, V, E, out, obj, seen_entries, before, after, wr, 
         if not seen_entries:
             return V('the winning exception view did not run on the exception path', exp)
         s = seen_entries[-1]
-        if s['tag'] != out[2] or s['context'] is not E or s['exception'] is not E or s['exc_info'] is not E or not s['exc_info_ok'] \
+        if s['tag'] != out[2] or (s['context'] is not NOCTX and s['context'] is not E) or s['exception'] is not E or s['exc_info'] is not E or not s['exc_info_ok'] \
                 or s['prop_exception'] is not E:
             return V('the exception view did not see the exception as context / request.exception / request.exc_info', exp)
+        wst = ok_tags[out[2]]['st']
+        if wst.get('vk', 'fn2') in CTX_KINDS and wst['body'][0] != 'default' and s['context'] is NOCTX:
+            return V('a view callable that takes a context was not handed one', exp)
     if after is None or after[0] is not E or after[3] is not E:
         return V('request.exception is not the rendered exception afterwards', exp)
     if after[1] is not E:
@@ -1133,6 +1191,7 @@ def gen_app(rng, big=False):
         if raised[0] == 'u' and raised[1] in plain and rng.random() < 0.6:
             root = raised[1]       # the context resource is an instance of (a subclass of) the raised exception's class
     site_at = rng.choice(EARLY_SITES + ['none'] * 5)
+    house = rng.choice(VIEW_KINDS + ['cls2', 'cls2', 'fn2', 'fn2'])      # the application's favourite kind of view callable
     cont_refs = ([['u', root]] * 2 if root is not None else []) + [x for x in rel if x[0] == 'u'][:2] + [['b', 'Exception'], ['b', 'ValueError']]
 
     def ctx_ref():
@@ -1190,7 +1249,8 @@ def gen_app(rng, big=False):
         if st['body'][0] == 'default':
             accept = accept      # default_exceptionresponse_view with predicates is fine
         st.update({'route': route, 'opts': o, 'not': notted, 'accept': accept, 'tag': tag,
-                   'touch': st['body'][0] != 'default' and rng.random() < 0.25})
+                   'touch': st['body'][0] != 'default' and rng.random() < 0.25,
+                   'vk': house if rng.random() < 0.6 else rng.choice(VIEW_KINDS)})
         stmts.append(st)
     site = {'at': site_at, 'exc': raised, 'prior': rng.random() < 0.3, 'touch': rng.random() < 0.25}
     root_same = bool(root is not None and rng.random() < 0.6)
@@ -1431,7 +1491,8 @@ def run(ctx):
             'no_default_excview': 0, 'root_is_exception_instance': 0, 'root_exactly_of_raised_class': 0, 'same_spec_main_hit_then_exception_lookup': 0, 'incoherent_cases': 0, 'silent_oracle': 0, 'finding_hits': {},
             'self_response_status': {}, 'commit_mode': {},
             'above_site': {}, 'execution_policy': {}, 'policy_level_renderings': 0, 'exception_view_touched_response': 0,
-            'carries_earlier_exception_then_no_match': 0, 'containment_on_exception_view': 0, 'physical_path_on_exception_view': 0}
+            'carries_earlier_exception_then_no_match': 0, 'containment_on_exception_view': 0, 'physical_path_on_exception_view': 0,
+            'view_kind': {}, 'answering_exception_view_kind': {}, 'same_class_raised_then_rendered': 0}
     for case, res, mo in zip(cases, results, model):
         m = compare_model(case, res, mo)
         if m:
@@ -1477,6 +1538,14 @@ def run(ctx):
                 dist['carries_earlier_exception_then_no_match'] += 1
         if res['minfo'] and mo and mo.get('seen') and any(s_.get('touch') and s_['tag'] == (obs['out'][2] if obs['out'][:2] == ['resp', 'view'] else -1) for s_ in case['stmts']):
             dist['exception_view_touched_response'] += 1
+        if obs['out'][:2] == ['resp', 'view'] and obs['seen'] is not None:
+            ws_ = [s_ for s_ in case['stmts'] if s_['tag'] == obs['out'][2]]
+            if ws_:
+                vfutil.bump(dist['answering_exception_view_kind'], ws_[0].get('vk', 'fn2'))
+                cid_ = obs['caught']
+                if ws_[0].get('vk') == 'cls2' and isinstance(cid_, int) and ID_VIEWEXC <= cid_ < ID_VIEWEXC + ID_AGAIN and \
+                        [s_ for s_ in case['stmts'] if s_['tag'] == cid_ - ID_VIEWEXC and s_.get('vk') == 'cls2']:
+                    dist['same_class_raised_then_rendered'] += 1      # the shape of seed C14-5
         if case['site'].get('prior'):
             dist['prior_attrs'] += 1
         if case['site'].get('touch'):
@@ -1489,6 +1558,7 @@ def run(ctx):
             seen.add(key)
             for s in case['stmts']:
                 vfutil.bump(dist['stmt_kinds'], s['kind'])
+                vfutil.bump(dist['view_kind'], s.get('vk', 'fn2'))
                 if stmt_isexc(s) and 'containment' in s['opts']:
                     dist['containment_on_exception_view'] += 1
                 if stmt_isexc(s) and 'physical_path' in s['opts']:
